@@ -32,6 +32,13 @@ struct HV<'a, 'b> {
 impl<'a, 'b> PwVisitor for HV<'a, 'b> {
     type Out = Outcome;
     fn visit<T: Evaluate + Clone + std::fmt::Debug + 'static>(&mut self, pw: &Piecewise<T>, is_tag: bool) -> Outcome {
+        // the oracle uses the ends of the function that was actually built (composed kinds)
+        let built_ends: Vec<f64> = pw.segments.iter().map(|s| s.end).collect();
+        let _ = self.ends;
+        let ends_b: &[f64] = &built_ends;
+        if ends_b.is_empty() || ends_b.iter().any(|e| e.is_nan()) || ends_b.windows(2).any(|w| !(w[0] <= w[1])) {
+            fail!("a library constructor returned a piecewise function whose breakpoints are not well-formed: {:?}", ends_b);
+        }
         let mut ev = lib!(PiecewiseEvaluator::new(&pw.segments));
         for (k, &x) in self.xs.iter().enumerate() {
             let got = lib!(ev.evaluate(x));
@@ -41,7 +48,7 @@ impl<'a, 'b> PwVisitor for HV<'a, 'b> {
                 continue;
             }
             let direct = lib!(pw.evaluate(x));
-            let i = select(self.ends, x);
+            let i = select(ends_b, x);
             let model = lib!(pw.segments[i].poly.evaluate(x));
             self.ctx.comparisons += 2;
             if !same_bits(got, direct) || !same_bits(got, model) {
@@ -53,7 +60,7 @@ impl<'a, 'b> PwVisitor for HV<'a, 'b> {
                     hex(direct),
                     hex(model),
                     if is_tag { " (tag pieces: value = index of the segment used)" } else { "" },
-                    self.ends,
+                    ends_b,
                     hist.join(", ")
                 );
             }
@@ -65,7 +72,7 @@ impl<'a, 'b> PwVisitor for HV<'a, 'b> {
             let b = lib!(pw.evaluate(x));
             self.ctx.comparisons += 1;
             if !same_bits(a, b) {
-                fail!("fresh evaluator at x={} returned {} but direct evaluation {} (ends {:?})", hex(x), hex(a), hex(b), self.ends);
+                fail!("fresh evaluator at x={} returned {} but direct evaluation {} (ends {:?})", hex(x), hex(a), hex(b), ends_b);
             }
         }
         Outcome::Pass
@@ -83,7 +90,7 @@ pub fn check_history(c: &Case, ctx: &mut Ctx, allow_nan: bool) -> Outcome {
         return Outcome::Skip("NaN query (C16's business)");
     }
     // labels + non-triviality
-    ctx.label(KIND_NAMES[(c.pw.kind % 5) as usize]);
+    ctx.label(KIND_NAMES[(c.pw.kind % NKINDS) as usize]);
     if ends.len() == 1 {
         ctx.label("single-segment");
     }
@@ -230,7 +237,7 @@ impl Prop for C03 {
         "C03"
     }
     fn rule(&self) -> String {
-        "case = (segment list as in C02, history of 0..=H non-NaN queries built from steps over the list's sorted alphabet: absolute jumps, relative moves of -6..6 alphabet positions, repeats, first/last, jumps exactly onto an end; 1/8 sorted ascending, 1/8 descending). One PiecewiseEvaluator per case; after every query its result bits are compared with Piecewise::evaluate and with the linear-scan selection model; the last query is repeated on a fresh evaluator. Non-trivial: >= 2 segments and the history contains a backward move that crosses >= 1 breakpoint or lands exactly on an end. Extras: (a) every history of length <= 3 over the full alphabet for every sorted multiset of <= 3 ends over the 5-point lattice; (b) breadth-first exploration of the evaluator's reachable hidden states (hook verif_state) to a fixpoint for generated lists: every (reachable state, alphabet query) pair is executed and judged.".into()
+        "case = (segment list as in C02 (tag / value pieces / functions composed from linear, constrained_spline, integral, &f+&g; 1 in 10 long), history of 0..=H non-NaN queries built from steps over the list's sorted alphabet: absolute jumps, relative moves of -6..6 alphabet positions, repeats, first/last, jumps exactly onto an end; 1/8 sorted ascending, 1/8 descending). One PiecewiseEvaluator per case; after every query its result bits are compared with Piecewise::evaluate and with the linear-scan selection model; the last query is repeated on a fresh evaluator. Non-trivial: >= 2 segments and the history contains a backward move that crosses >= 1 breakpoint or lands exactly on an end. Extras: (a) every history of length <= 3 over the full alphabet for every sorted multiset of <= 3 ends over the 5-point lattice; (b) breadth-first exploration of the evaluator's reachable hidden states (hook verif_state) to a fixpoint for generated lists: every (reachable state, alphabet query) pair is executed and judged.".into()
     }
     fn assumptions(&self) -> Vec<String> {
         vec!["state exploration trusts the hook PiecewiseEvaluator::verif_state (feature verif-hooks) to expose the complete hidden state (cursor offset, tail length, last argument bits)".into()]
